@@ -369,7 +369,11 @@ class Rig:
         ticket arrives (what `_on_peer_initialized` does with it): the attempt's future gets the connection."""
         att = self.attempts.get(k)
         ticket = self.attempt_ticket.get((k, att))
-        fut = self.mgr._file_connection_futures.get(ticket)
+        futures = self.mgr._file_connection_futures
+        # keyed by (uploader, ticket) since d97c791, by the ticket alone before
+        fut = futures.get((self.transfers[k].username, ticket))
+        if fut is None:
+            fut = futures.get(ticket)
         if fut is None or fut.done():
             return False
         fut.set_result(FakeConn(self, self.transfers[k].username, k, att))
